@@ -1,7 +1,7 @@
 (** src/parse.rs: the syntax tree (Stmt, Expr, ObjectRef, Call, ArgExpr). *)
-From RS Require Import Base.Bytes Interp.Val.
+From RS Require Import Base.Bytes Interp.Val Lex.Tokens.
 
-Definition loc := (N * N)%type.    (* line, column; (0,0) is nil *)
+Definition loc := Tokens.loc.
 
 Inductive expr :=
 | ENil
